@@ -2,7 +2,8 @@
 """Applies each given patch (hand-made mutation or seed) to a scratch worktree of /repo and runs
 `BM_REPO=<worktree> ./check C12 --tier quick` on it; prints exit code, number of VIOLATION lines and the first one,
 then re-runs the first program replay against the mutant (must fail) and against /repo (must agree).
-usage (from the verif root): python3 notes/c12_run_mutations.py <scratch dir> <patch>...   (sequential: the build dirs are shared)"""
+usage (from the verif root): python3 notes/c12_run_mutations.py <scratch dir> <patch>...   (sequential: the build dirs are shared)
+C12_MUT_NO_REPLAY=1 skips the two replay re-runs (prints the shrunk program only)."""
 import os
 import re
 import shutil
@@ -40,7 +41,10 @@ def main():
             if m and "no-failing-input-found" not in v:
                 first = m.group(1)
                 break
-        if first:
+        if first and os.environ.get("C12_MUT_NO_REPLAY") == "1":
+            body = [l for l in open(first).read().splitlines() if not l.startswith("#")]
+            line += "  [%s]" % " / ".join(body[1:-1])[:150]
+        elif first:
             keep = os.path.join(scratch, "replay-" + name + ".prog")
             shutil.copy(first, keep)
             r1, o1 = sh(["./check", "C12", "--replay", keep], env={"BM_REPO": wt})
